@@ -676,7 +676,49 @@ fn trivial(mode: &str) -> Sc {
     Sc { mode: mode.into(), code_name: "Nopd".into(), shape: "reg".into(), fault: "none".into(), bytes: "90".into(), gpr: vec![0, 0, 0, 0, 0, 0, STACK + 0x800, 0, 0, 0, 0, 0, 0, 0, 0, 0], xmm_seed: 1, flags: 0, fs: 0, gs: 0, data_seed: 1, prot_data: 3, prot_stack: 3, prot_code: 5, extra_steps: 0, flips: vec![], flip_at: 0, poke: vec![], no_pad: false, shrunk: false, neighbour: false, prelude_ret: false, builtin: false, refetch_revoked: false }
 }
 
+/// CPUID is the one implemented instruction whose behaviour is selected by a register *value* (the leaf in
+/// EAX, the sub-leaf in ECX): the leaves are an enumerated axis of their own - every basic, hypervisor and
+/// extended leaf number up to 0x20 in each range, the ends of the ranges, and four sub-leaves
+fn cpuid_leaves() -> &'static Vec<(u64, u64)> {
+    static C: OnceLock<Vec<(u64, u64)>> = OnceLock::new();
+    C.get_or_init(|| {
+        let mut v: Vec<(u64, u64)> = Vec::new();
+        for base in [0u64, 0x4000_0000, 0x8000_0000, 0xC000_0000] {
+            for k in 0..=0x20u64 {
+                v.push((base + k, 0));
+            }
+            v.push((base + 0xff, 0));
+            v.push((base + 0x0fff_ffff, 0));
+        }
+        for leaf in [4u64, 7, 0xb, 0xd, 0x8000_001d] {
+            for sub in 1..4u64 {
+                v.push((leaf, sub));
+            }
+        }
+        v.push((0xffff_ffff, 0));
+        v.push((0x7fff_ffff, 0xffff_ffff));
+        v
+    })
+}
+
+/// one CPUID instance with an enumerated leaf; the upper halves of RAX / RCX stay as sampled
+fn gen_cpuid_leaf(mode: &str, li: usize, r: &mut Rng) -> Option<Sc> {
+    let ci = catalogue().iter().position(|(c, _)| *c == Code::Cpuid)?;
+    let mut sc = gen_insn(mode, ci, None, "none", r, 0)?;
+    let (leaf, sub) = cpuid_leaves()[li % cpuid_leaves().len()];
+    sc.gpr[0] = (sc.gpr[0] & !0xffff_ffff) | leaf; // RAX
+    sc.gpr[2] = (sc.gpr[2] & !0xffff_ffff) | sub; // RCX
+    sc.shape = format!("leaf_{leaf:x}_{sub:x}");
+    Some(sc)
+}
+
 fn gen_c06(seed: u64, idx: u64, thorough: bool) -> Sc {
+    let nl = cpuid_leaves().len() as u64;
+    if idx < nl {
+        let mut r = Rng::new(mix(seed, "C06cpuid", idx));
+        return gen_cpuid_leaf("c06", idx as usize, &mut r).unwrap_or_else(|| trivial("c06"));
+    }
+    let idx = idx - nl;
     let samples = if thorough { SAMPLES_THOROUGH } else { SAMPLES_QUICK };
     let cs = cells();
     let cell = (idx / samples) as usize % cs.len();
@@ -745,6 +787,14 @@ fn gen_c09(seed: u64, idx: u64) -> Sc {
 const PREFIXES: [u8; 11] = [0x66, 0x67, 0xf2, 0xf3, 0x2e, 0x36, 0x3e, 0x26, 0x64, 0x65, 0xf0];
 
 fn gen_c19(seed: u64, idx: u64, thorough: bool) -> Sc {
+    let nl = cpuid_leaves().len() as u64;
+    if idx < nl {
+        let mut r = Rng::new(mix(seed, "C19cpuid", idx));
+        if let Some(mut s) = gen_cpuid_leaf("c19", idx as usize, &mut r) {
+            s.mode = "c19".into();
+            return s;
+        }
+    }
     let mut r = Rng::new(mix(seed, "C19", idx));
     let (mut gpr, flags, xmm_seed) = gen_state(&mut r);
     // pointer registers aimed into the mapped areas so that memory operands usually resolve
@@ -1414,19 +1464,47 @@ fn run_c20(sc: &Sc, ctx: &mut Ctx) {
             g[i] = true;
         }
     };
+    // registers the instruction only *writes*, in full (a 64-bit or zero-extending 32-bit GPR, an XMM register), are
+    // left as the constructor made them - different on the two machines - and must agree afterwards: an output
+    // the instruction forgets to write would otherwise hide behind the harness's own explicit write
+    let mut wo_g = [false; 16];
+    let mut wo_x = [false; 16];
     for u in info.used_registers() {
-        mark(u.register());
+        let r = u.register();
+        if u.access() == iced_x86::OpAccess::Write && (r.is_gpr64() || r.is_gpr32() || r.is_xmm()) {
+            if r.is_xmm() {
+                wo_x[r.number() % 16] = true;
+            } else if let Some(i) = reg_index(r) {
+                wo_g[i] = true;
+            }
+        }
+    }
+    for u in info.used_registers() {
+        let r = u.register();
+        let pure_full_write = u.access() == iced_x86::OpAccess::Write && (r.is_gpr64() || r.is_gpr32() || r.is_xmm());
+        if !pure_full_write {
+            mark(r);
+        }
     }
     for m in info.used_memory() {
         mark(m.base());
         mark(m.index());
     }
-    for k in 0..ins.op_count() {
-        if ins.op_kind(k) == OpKind::Register {
-            mark(ins.op_register(k));
+    let _ = OpKind::Register;
+    g[6] = true; // RSP: the harness always sets up a stack
+    if matches!(ins.mnemonic(), Mnemonic::Syscall | Mnemonic::Int | Mnemonic::Int1 | Mnemonic::Int3) {
+        // what a trap leaves in registers is the business of the hook that handles it (the CPU's own RCX / R11
+        // clobber of SYSCALL is not modelled by ax and not demanded by any property claimed here)
+        wo_g = [false; 16];
+    }
+    for i in 0..16 {
+        if g[i] {
+            wo_g[i] = false;
+        }
+        if x[i] {
+            wo_x[i] = false;
         }
     }
-    g[6] = true; // RSP: the harness always sets up a stack
     ctx.nontrivial = true;
     set_dispatch(Some(Box::new(|_id, _ax, _m| Ok(HookResult::Unhandled))));
     let mut res: Vec<(String, Obs, Obs)> = Vec::new();
@@ -1467,6 +1545,12 @@ fn run_c20(sc: &Sc, ctx: &mut Ctx) {
                 ctx.dev("C20", format!("C20|insn|reg|{mn}"), format!("{} [{}] {}: {} differs after the step ({:#x} vs {:#x})", sc.code_name, sc.shape, ins, GPR64_NAMES[i], oa.gpr[i], ob.gpr[i]));
                 return;
             }
+        } else if wo_g[i] {
+            ctx.probe("c20_write_only_output_left_unwritten");
+            if oa.gpr[i] != ob.gpr[i] {
+                ctx.dev("C20", format!("C20|insn|stale_output|reg|{mn}"), format!("{} [{}] {}: {} is an output of the instruction, yet its value after the step depends on what the constructor left in it ({:#x} vs {:#x})", sc.code_name, sc.shape, ins, GPR64_NAMES[i], oa.gpr[i], ob.gpr[i]));
+                return;
+            }
         } else {
             for (o, init) in [(oa, &a.1), (ob, &b.1)] {
                 if o.gpr[i] != init.gpr[i] {
@@ -1480,6 +1564,12 @@ fn run_c20(sc: &Sc, ctx: &mut Ctx) {
         if x[i] {
             if oa.xmm[i] != ob.xmm[i] {
                 ctx.dev("C20", format!("C20|insn|xmm|{mn}"), format!("{} [{}] {}: XMM{i} differs after the step", sc.code_name, sc.shape, ins));
+                return;
+            }
+        } else if wo_x[i] {
+            ctx.probe("c20_write_only_output_left_unwritten");
+            if oa.xmm[i] != ob.xmm[i] {
+                ctx.dev("C20", format!("C20|insn|stale_output|xmm|{mn}"), format!("{} [{}] {}: XMM{i} is an output of the instruction, yet its value after the step depends on what the constructor left in it", sc.code_name, sc.shape, ins));
                 return;
             }
         } else {
@@ -1524,6 +1614,12 @@ fn cells_c20() -> &'static Vec<(usize, Option<usize>)> {
 }
 
 fn gen_c20(seed: u64, idx: u64) -> Sc {
+    let nl = cpuid_leaves().len() as u64;
+    if idx < nl {
+        let mut r = Rng::new(mix(seed, "C20cpuid", idx));
+        return gen_cpuid_leaf("c20", idx as usize, &mut r).unwrap_or_else(|| trivial("c20"));
+    }
+    let idx = idx - nl;
     let cs = cells_c20();
     let (ci, shape) = cs[(idx as usize) % cs.len()];
     let k = idx / cs.len() as u64;
@@ -1556,9 +1652,9 @@ impl Engine for E5Engine {
     }
     fn runs(&self, prop: &str, thorough: bool) -> u64 {
         match prop {
-            "C06" => cells().len() as u64 * if thorough { SAMPLES_THOROUGH } else { SAMPLES_QUICK },
+            "C06" => cpuid_leaves().len() as u64 + cells().len() as u64 * if thorough { SAMPLES_THOROUGH } else { SAMPLES_QUICK },
             "C09" => cells_c09().len() as u64 * if thorough { 40 } else { 5 },
-            "C20" => cells_c20().len() as u64 * if thorough { 64 } else { 8 },
+            "C20" => cpuid_leaves().len() as u64 + cells_c20().len() as u64 * if thorough { 64 } else { 8 },
             _ => {
                 if thorough {
                     20_000_000
